@@ -16,7 +16,6 @@ import (
 	"perkeep.org/pkg/search"
 
 	"verif/vk"
-	"verif/world"
 )
 
 var otherSorts = []search.SortType{search.CreatedAsc, search.BlobRefAsc}
@@ -26,18 +25,18 @@ var otherSorts = []search.SortType{search.CreatedAsc, search.BlobRefAsc}
 // -> index_blob_meta).
 const otherKons = 2
 
-// timeOf is the model's creation time of a blob that may legitimately appear
-// in a CreatedAsc result: live permanodes and the deleted permanode pD (the
-// unsorted candidate sources do not filter deleted permanodes; whether they
-// should is C08's question, here the Limit -1 list of the same query is the
-// reference).
+// timeOf is the creation time of a blob that may legitimately appear in a
+// CreatedAsc result: live permanodes (from the model) and the deleted permanode
+// pD. The unsorted candidate sources do not filter deleted permanodes; whether
+// they should, and whether pD's delete claim (T+50s) counts towards its time or
+// only its tag claim (T) does, is not C09's question (the Limit -1 list of the
+// same query is the reference), so pD's time is read from the corpus itself.
 func (w *World) timeOf(br blob.Ref) (time.Time, bool) {
 	if m, ok := w.pnByRef(br); ok {
 		return m.Created, true
 	}
 	if w.Names[br] == "pD" {
-		// the delete claim (dated T(50)) targets pD and therefore counts as its latest claim
-		return world.T(50), true
+		return w.Corpus.PermanodeAnyTime(br)
 	}
 	return time.Time{}, false
 }
